@@ -146,3 +146,30 @@ prop("C05", "exploration",
           "thorough": {"checks": 40000, "shards": 16, "timeout": 2400}},
      ],
      [])
+
+
+prop("C07", "exploration",
+     "property-based testing (rapid) of SendBatch against a simulated cluster with per-(call, attempt) outcome scripts "
+     "under virtual time; oracle derived from the script and the servers' execution log",
+     "Generated batches, outcome sequences across retry rounds, failing re-location and cancellation; result i must be "
+     "call i's own response or own error, delivered successes are kept, ok == all nil.",
+     "Trusted: the simulated cluster; which success was 'delivered' is taken from the servers' log (not asserted when "
+     "the batch was cancelled).",
+     [
+         {"test": "TestC07_BatchResults", "quick": {"checks": 5000, "timeout": 300},
+          "thorough": {"checks": 50000, "shards": 16, "timeout": 2400}},
+     ],
+     ["scripted connection-level faults happen before execution"])
+
+prop("C12", "exploration",
+     "property-based testing (rapid) of SendBatch against a simulated cluster; oracle on the per-marker execution log "
+     "of the servers",
+     "Generated valid and invalid batches with retryable / non-retryable outcome scripts and concurrent batches; "
+     "rejection without sending, per-region order, at-most-once execution, no resend after success, exact send counts.",
+     "Trusted: the simulated cluster; faults are injected only before execution (never executed-then-lost, which would "
+     "make re-execution legitimate).",
+     [
+         {"test": "TestC12_BatchExecution", "quick": {"checks": 5000, "timeout": 300},
+          "thorough": {"checks": 50000, "shards": 16, "timeout": 2400}},
+     ],
+     ["faults are injected before execution only"])
